@@ -294,6 +294,7 @@ def _case(draw):
         clf["n_neighbors"] = draw(st.sampled_from([None, None, None, 1, 2,
                                                    3]))
         clf["class_prior"] = draw(st.sampled_from([0.0, 0.0, 1.0, 0.5]))
+        clf["cost_matrix"] = draw(st.sampled_from([None, None, "asym"]))
     case["clf"] = clf
     uniq = draw(st.booleans())
     case["enforce_unique_samples"] = uniq
@@ -491,13 +492,26 @@ def _make_clf(case):
             classes=classes, missing_label=ml, metric=c["metric"],
             metric_dict=None if md is None else dict(md),
             n_neighbors=c.get("n_neighbors"),
-            class_prior=c.get("class_prior", 0.0), random_state=0)
+            class_prior=c.get("class_prior", 0.0),
+            cost_matrix=(_cost_matrix(case)
+                         if c.get("cost_matrix") == "asym" else None),
+            random_state=0)
     if c["kind"] == "gnb":
         est = GaussianNB()
     else:
         est = DecisionTreeClassifier(random_state=0)
     return SklearnClassifier(est, classes=classes, missing_label=ml,
                              random_state=0)
+
+
+def _cost_matrix(case):
+    """Configured cost matrix (classes are 0..K-1, already sorted)."""
+    K = case["n_classes"]
+    if case["clf"].get("cost_matrix") != "asym":
+        return 1.0 - np.eye(K)
+    C = np.array([[0.0, 1.0, 2.0, 1.0], [3.0, 0.0, 1.0, 2.0],
+                  [1.0, 2.0, 0.0, 3.0], [2.0, 1.0, 1.0, 0.0]])
+    return C[:K, :K]
 
 
 def _yarr(vals, case):
@@ -626,7 +640,7 @@ def _compare(comp, trig, tag, got, want, case, ref_obj, skip_rows=()):
                                  f"row {r}: {a[r]!r}"))
             break
         if case["clf"]["kind"] == "pwc":
-            costs = P[r] @ (1 - np.eye(K))
+            costs = P[r] @ _cost_matrix(case)
             if np.isnan(costs).any():
                 continue
             if costs[int(lab)] > costs.min() + 1e-6:
@@ -712,6 +726,7 @@ def run_case(case):
     variants = ([("plain", False), ("speedup", True)] if kind == "pwc"
                 else [("only", bool(case["use_speed_up"]))])
     wrappers = {}
+    handed_objs = {}
     for name, su in variants:
         handed = copy.deepcopy(prefit) if prefit is not None \
             else _make_clf(case)
@@ -727,6 +742,7 @@ def run_case(case):
                                       "constructor"))
             return Outcome(viol, False, labels)
         wrappers[name] = r
+        handed_objs[name] = handed
 
     model = _new_model(case)
     ref = _Ref(case, X, prefit)
@@ -924,6 +940,34 @@ def run_case(case):
                 pending.append(("w", wbuf))
         check(trig, op["pred"])
 
+    # The caller keeps using its own classifier object after handing it to
+    # the wrapper (e.g. refits it for evaluation, or hands it to a second
+    # strategy): once the wrapper has been fitted through its own fit /
+    # partial_fit it must behave like "a fresh copy of the wrapped
+    # classifier", i.e. its predictions must not follow the caller's object.
+    if not viol and not dead and prefit is None:
+        name0 = variants[0][0]
+        wa = wrappers[name0]
+        allidx = list(range(len(X)))
+        if hasattr(wa, "clf_"):
+            ok, before = guarded(_predictions, wa, allidx, freq)
+            K = case["n_classes"]
+            if case["enc"] == "nan":
+                y_other = np.array([float(i % K) for i in allidx])
+            else:
+                y_other = np.array([i % K for i in allidx], dtype=int)
+            okf, _ = guarded(handed_objs[name0].fit, X.copy(), y_other)
+            ok2, after = guarded(_predictions, wa, allidx, freq)
+            if ok and okf and ok2:
+                if not arr_close(np.asarray(before["proba"], dtype=float),
+                                 np.asarray(after["proba"], dtype=float),
+                                 **DIFF):
+                    viol.append(Violation(
+                        comp, "caller_classifier_aliased",
+                        "caller_refits_its_classifier_object",
+                        "refitting the classifier object that was handed to "
+                        "the wrapper changed the wrapper's predictions"))
+                labels.append("caller_refit=checked")
     if gm:
         # the speed-up cannot handle the symbolic bandwidth 'mean'
         # (precompute hands it to pairwise_kernels): one signature for it;
